@@ -586,3 +586,133 @@ def replay(ctx, r):
     print('model outcomes         :', model_view(ans, W()))
     print('oracle                 :', res['oracle'] or 'property holds on this schedule')
     return 1 if any(sig not in KNOWN_SIGS for sig, _ in res['oracle']) else 0
+
+
+# ------------------------------------------------------------------------------------ C14: SimpleClient == AsyncSimpleClient
+
+PARITY_RESULTS = ('ok', 'ok', 'BadNamespaceError', 'TimeoutError', 'SocketIOError')
+
+
+def gen_parity_program(rng):
+    """a scripted scenario at the granularity both variants share: handlers run to completion, the
+    application call runs until it parks or ends.  ('send', op, [result of each client attempt…])"""
+    prog = [('connect',)] if rng.random() < 0.85 else []
+    for _ in range(rng.randint(6, 22)):
+        r = rng.random()
+        if r < 0.25:
+            prog.append(('arrive',))
+        elif r < 0.45:
+            prog.append(('recv', rng.random() < 0.5))
+        elif r < 0.62:
+            k = rng.randint(0, 2)
+            prog.append(('send', rng.choice(['Se', 'Sc']),
+                         [rng.choice(PARITY_RESULTS[2:]) for _ in range(k)] + ['ok']))
+        elif r < 0.72:
+            prog.append(('timeout',))
+        elif r < 0.80:
+            prog.append(('disconnect',))
+        elif r < 0.88:
+            prog.append(('connect',))
+        elif r < 0.93:
+            prog.append(('final',))
+        else:
+            prog.append(('run',))
+    prog += [('arrive',), ('run',)]
+    return prog
+
+
+def run_parity_program(variant, prog):
+    """-> list of observations, one per action"""
+    from socketio import exceptions as sx
+    W_ = W()
+    th = variant == 'threads'
+    w = (W_.ThreadWorld if th else W_.AsyncWorld)()
+    script = []
+    obs = []
+
+    def settle():
+        for _ in range(300):
+            if w.consumer_status() != 'ready':
+                return
+            if w.at_client_call():
+                res = script.pop(0) if script else 'ok'
+                if res == 'ok':
+                    w.do('C')
+                else:
+                    w.client.fail_class = getattr(sx, res)
+                    w.do('Cf')
+            else:
+                w.do('C')
+        raise W_.Spinning('the call neither parks nor ends')
+
+    try:
+        for act in prog:
+            k = act[0]
+            try:
+                if k == 'arrive':
+                    w.do('P')
+                    if th:
+                        w.do('P')
+                elif k in ('connect', 'final'):
+                    t = 'Kc' if k == 'connect' else 'Kf'
+                    w.do(t)
+                    if th:
+                        w.do(t)
+                elif k == 'disconnect':
+                    w.do('Kd')
+                elif k == 'recv':
+                    w.do('St' if act[1] else 'Sr')
+                elif k == 'send':
+                    if w.consumer_status() == 'idle':
+                        script[:] = list(act[2])
+                    w.do(act[1])
+                elif k == 'timeout':
+                    w.do('T')
+                settle()
+                spin = None
+            except W_.Spinning as e:
+                spin = str(e)
+            obs.append({'status': 'spinning' if spin else w.consumer_status(),
+                        'calls': [(o['op'], o['kind'], o['value']) for o in w.outcomes],
+                        'client_got': [tuple(x) for x in w.client.sent], 'client_attempts': w.client.attempts})
+            if spin:
+                break
+    finally:
+        w.close()
+    return obs
+
+
+def parity(ctx, n=None):
+    """C14 for the simple clients: the same scripted scenarios on SimpleClient (deterministic thread
+    scheduler) and AsyncSimpleClient (controlled loop) with equivalent schedules — every handler runs to
+    completion, the application call runs until it parks or ends — compared after every action on what
+    the calls returned / raised, what the client was asked to emit/call and how often, parked or not."""
+    n = n if n is not None else ctx.scale(150, 1500)
+    fixed = [
+        [('connect',), ('send', 'Sc', ['TimeoutError', 'ok'])],
+        [('connect',), ('send', 'Se', ['BadNamespaceError', 'ok'])],
+        [('connect',), ('send', 'Sc', ['SocketIOError', 'TimeoutError', 'ok'])],
+        [('connect',), ('recv', True), ('arrive',), ('recv', True), ('timeout',), ('disconnect',), ('final',),
+         ('recv', False), ('send', 'Se', ['ok'])],
+        [('connect',), ('send', 'Sc', ['ok']), ('disconnect',), ('send', 'Se', ['BadNamespaceError', 'ok']),
+         ('connect',), ('run',), ('disconnect',), ('send', 'Sc', ['ok']), ('final',)],
+        [('recv', True), ('timeout',), ('send', 'Se', ['ok']), ('connect',), ('arrive',), ('recv', False)],
+    ]
+    progs = fixed + [gen_parity_program(ctx.rng) for _ in range(max(0, n - len(fixed)))]
+    bad = 0
+    for prog in progs:
+        a = run_parity_program('threads', prog)
+        b = run_parity_program('asyncio', prog)
+        ctx.count('simple_parity_programs')
+        if a != b:
+            bad += 1
+            i = next((j for j, (x, y) in enumerate(zip(a, b)) if x != y), min(len(a), len(b)))
+            if bad <= 3:
+                ctx.violation(
+                    'oracle', 'SimpleClient and AsyncSimpleClient behave differently: after action %d %r of %r '
+                              'SimpleClient -> %r, AsyncSimpleClient -> %r'
+                    % (i, prog[i] if i < len(prog) else None, prog[:i + 1], a[i] if i < len(a) else None,
+                       b[i] if i < len(b) else None),
+                    {'kernel': 'simple', 'program': [list(p) for p in prog[:i + 1]],
+                     'threaded': repr(a[:i + 1][-1:]), 'asyncio': repr(b[:i + 1][-1:])})
+    return {'programs': len(progs), 'disagreements': bad}
